@@ -1517,6 +1517,12 @@ class IRGenerator:
                             field.doc,
                             (field._ast_node.lineno + 1, field._ast_node.path),
                             data_type)
+            for alias in namespace.aliases:
+                if alias.doc:
+                    self._validate_doc_refs_helper(
+                        env,
+                        alias.doc,
+                        (alias._ast_node.lineno + 1, alias._ast_node.path))
             for route in namespace.routes:
                 if route.doc:
                     self._validate_doc_refs_helper(
